@@ -104,9 +104,15 @@ Fixpoint classify (s : kvs N) (evs : list dbev) : list (N * bool) * kvs N :=
 (* the instants at which the database file really changed: only these move the generation *)
 Definition ok_writes (tl : timeline) : list N := map fst (filter snd (writes tl)).
 
+(* lastWriteGen before any upload ("nothing uploaded yet"), and the generation a database handle
+   reports right after db.Open - of a file it has just created AND of a file that existed (a
+   restart: the normal case in production); see [Server/DB.v]: db_create, db_open *)
+Definition no_upload_yet : N := 0.
+Definition open_gen : N := 1.
+
 (* the run of the backup task: its iterations and the instant it returns *)
 Definition backup_run (tl : timeline) : option (list iter * N) :=
-  loop (fuel_for (cancel tl)) (ok_writes tl) (cancel tl) 0 0 0 (script tl).
+  loop (fuel_for (cancel tl)) (ok_writes tl) (cancel tl) 0 no_upload_yet 0 (script tl).
 
 (* the generation covered by the last acknowledged upload (lastWriteGen), from the log *)
 Definition lastok_step (l : N) (it : iter) : N :=
